@@ -98,6 +98,29 @@ def model_value(x, g, B, p):
 _patch_lock = threading.RLock()
 
 
+def named_args(orig, a, k, spec):
+    """Values of the arguments `spec` = {name: position in the pinned signature} of a call orig(*a, **k), found by
+    name first and by position second, so that a refactoring that switches a call site between positional and keyword
+    style, adds parameters or renames one is still observed. None when the call cannot be bound."""
+    import inspect
+    try:
+        sig = inspect.signature(orig)
+        ba = sig.bind(*a, **k)
+        ba.apply_defaults()
+    except (TypeError, ValueError):
+        return None
+    params = list(sig.parameters)
+    out = {}
+    for name, idx in spec.items():
+        if name in ba.arguments:
+            out[name] = ba.arguments[name]
+        elif idx < len(params) and params[idx] in ba.arguments:
+            out[name] = ba.arguments[params[idx]]
+        else:
+            return None
+    return out
+
+
 class InjectedFault(Exception):
     pass
 
@@ -229,16 +252,20 @@ class Observer:
             saved_ad = SFM.approx_derivative
             obs = self
 
-            def line_search(x0, f0, g0, d, lb, ub, above_iter, max_steplength_user, is_boxed, sf,
-                            ftol, gtol, xtol, max_iter, *a, **k):
+            def line_search(*a, **k):
+                na = named_args(saved["line_search"], a, k, {"x0": 0, "f0": 1, "g0": 2, "d": 3, "above_iter": 6,
+                                                             "max_steplength_user": 7, "max_iter": 13})
+                if na is None:
+                    raise Machinery("line_search called with arguments the observer cannot bind")
+                x0, f0, g0, d, above_iter = na["x0"], na["f0"], na["g0"], na["d"], na["above_iter"]
+                max_steplength_user, max_iter = na["max_steplength_user"], na["max_iter"]
                 x0c, dc = np.array(x0, copy=True), np.array(d, copy=True)
                 e = obs.ev("LSBegin", pt=obs.pid(x0c), budget=int(max_iter), it0=bool(above_iter == 0),
                            descent=bool(np.dot(g0, d) < 0), _f0=float(f0))
                 nf0 = obs.nf_plain
                 obs.site.append("ls")
                 try:
-                    stp = saved["line_search"](x0, f0, g0, d, lb, ub, above_iter, max_steplength_user,
-                                               is_boxed, sf, ftol, gtol, xtol, max_iter, *a, **k)
+                    stp = saved["line_search"](*a, **k)
                 except BaseException:
                     obs.site.pop()
                     obs.ev("LSEnd", ret="exc", pt=0, pos=True, leMax=True, evals=obs.nf_plain - nf0)
@@ -268,23 +295,30 @@ class Observer:
                            _stp=float(stp), _smax=float(smax))
                 return stp
 
-            def update_lbfgs_matrices(xk, gk, X, G, maxcor, mats, *a, **k):
+            def update_lbfgs_matrices(*a, **k):
+                na = named_args(saved["update_lbfgs_matrices"], a, k, {"xk": 0, "gk": 1, "X": 2, "G": 3, "eps": 7})
+                if na is None:
+                    raise Machinery("update_lbfgs_matrices called with arguments the observer cannot bind")
+                xk, gk, X, G = na["xk"], na["gk"], na["X"], na["G"]
                 before = [obs.pid(v) for v in X]
                 xo, go = X[-1], G[-1]
                 yk = gk - go
                 sty = float((xk - xo).dot(yk))
                 yty = float(yk.dot(yk))
-                eps = k.get("eps", obs.eps_SY)
-                r = saved["update_lbfgs_matrices"](xk, gk, X, G, maxcor, mats, *a, **k)
+                eps = na["eps"]
+                r = saved["update_lbfgs_matrices"](*a, **k)
                 after = [obs.pid(v) for v in X]
                 obs.ev("MemUpd", cand=obs.pid(xk), before=before, ids=after,
                        curv=bool(sty > eps * yty), _X=[np.array(v, copy=True) for v in X],
                        _G=[np.array(v, copy=True) for v in G])
                 return r
 
-            def make_wolfe(X, G, eps=2.2e-16, logger=None):
-                before = [obs.pid(v) for v in X]
-                X2, G2 = saved["make_X_and_G_respect_strong_wolfe"](X, G, eps, logger=logger)
+            def make_wolfe(*a, **k):
+                na = named_args(saved["make_X_and_G_respect_strong_wolfe"], a, k, {"X": 0, "G": 1})
+                if na is None:
+                    raise Machinery("make_X_and_G_respect_strong_wolfe called with arguments the observer cannot bind")
+                before = [obs.pid(v) for v in na["X"]]
+                X2, G2 = saved["make_X_and_G_respect_strong_wolfe"](*a, **k)
                 obs.ev("Filter", before=before, ids=[obs.pid(v) for v in X2],
                        _X=[np.array(v, copy=True) for v in X2], _G=[np.array(v, copy=True) for v in G2])
                 return X2, G2
@@ -308,10 +342,14 @@ class Observer:
 
             saved_k = {n: getattr(sites(n)[-1], n) for n in KERNELS if sites(n)}
 
-            def get_cauchy_point(x, grad, lb, ub, mats, *a, **k):
+            def get_cauchy_point(*a, **k):
                 from harness.memcheck import dense_from_mats
+                na = named_args(saved_k["get_cauchy_point"], a, k, {"x": 0, "grad": 1, "lb": 2, "ub": 3, "mats": 4})
+                if na is None:      # kernel facts are optional: an unbindable call is simply not judged
+                    return saved_k["get_cauchy_point"](*a, **k)
+                x, grad, lb, ub, mats = na["x"], na["grad"], na["lb"], na["ub"], na["mats"]
                 xi, gi = np.array(x, copy=True), np.array(grad, copy=True)
-                xcp, c = saved_k["get_cauchy_point"](x, grad, lb, ub, mats, *a, **k)
+                xcp, c = saved_k["get_cauchy_point"](*a, **k)
                 try:
                     B = dense_from_mats(mats, xi.size)
                     tref, xref = ref_cauchy(xi, gi, np.asarray(lb, float), np.asarray(ub, float), B)
@@ -344,10 +382,15 @@ class Observer:
                            judged=False, nfree=-1, npairs=-1, _skip=repr(ex))
                 return xcp, c
 
-            def subspace_minimization(x, xc, free_vars, Z, A, c, grad, lb, ub, mats, *a, **k):
+            def subspace_minimization(*a, **k):
                 from harness.memcheck import dense_from_mats
+                na = named_args(saved_k["subspace_minimization"], a, k,
+                                {"x": 0, "xc": 1, "grad": 6, "lb": 7, "ub": 8, "mats": 9})
+                if na is None:
+                    return saved_k["subspace_minimization"](*a, **k)
+                x, xc, grad, lb, ub, mats = na["x"], na["xc"], na["grad"], na["lb"], na["ub"], na["mats"]
                 xi, xci, gi = np.array(x, copy=True), np.array(xc, copy=True), np.array(grad, copy=True)
-                xbar = saved_k["subspace_minimization"](x, xc, free_vars, Z, A, c, grad, lb, ub, mats, *a, **k)
+                xbar = saved_k["subspace_minimization"](*a, **k)
                 try:
                     B = dense_from_mats(mats, xi.size)
                     xb = np.asarray(xbar, float).ravel()
@@ -491,6 +534,8 @@ class Observer:
                 res = lbfgsb.minimize_lbfgsb(
                     x0=x0, fun=self.w_fun(), jac=jac_arg, bounds=bounds, checkpoint=ck,
                     ftarget=ft, gtol=gt, callback=cb, update_fun_def=ufd, gradient_scaler=sc, **kw)
+        except (Machinery, KeyboardInterrupt):
+            raise
         except BaseException as ex:  # noqa: BLE001
             err = ex
         if callable(gtol):
